@@ -79,13 +79,20 @@ func c08Run(c *vcore.Ctx) *vcore.Violation {
 		r.FileSize = pickV("fsize", 0, 0, 1<<20, 1<<35)
 		r.Stack = pickV("stack", 0, 0, 8<<20, 1<<32+8192)
 		r.AddressSpace = pickV("as", 0, 0, 1<<32+4096, 1<<34) // below the 32 GiB hard limit bin/check runs under (no CAP_SYS_RESOURCE here)
-		r.OpenFile = pickV("nofile", 0, 0, 64, 1000)
+		r.OpenFile = pickV("nofile", 0, 0, 64, 1000, 1000, own[syscall.RLIMIT_NOFILE][1]+10000)
+		// (the last value lies above the caller's own hard limit, which nobody here may raise: the launch
+		// must then be refused - never go ahead under some other limit)
+		aboveHard := r.OpenFile > own[syscall.RLIMIT_NOFILE][1]
+		if aboveHard {
+			c.Fault("limit_above_callers_hard_limit")
+		}
 		r.DisableCore = src.Bool(1, 2, "core")
 		rl := r.PrepareRLimit()
 		// a raw list may also be given directly, in any order
 		if src.Bool(1, 4, "rawlist") {
 			rl = []rlimit.RLimit{{Res: syscall.RLIMIT_NOFILE, Rlim: syscall.Rlimit{Cur: 100, Max: 200}}, {Res: syscall.RLIMIT_CPU, Rlim: syscall.Rlimit{Cur: 5, Max: 1 << 33}}}
 			r = rlimit.RLimits{}
+			aboveHard = false
 		}
 		c.Logf("runner=%s limits=%v", kind, rl)
 		c.Event(fmt.Sprintf("limits:%v", rl))
@@ -98,6 +105,10 @@ func c08Run(c *vcore.Ctx) *vcore.Violation {
 			res, out = runKind(context.Background(), kind, []string{"state", "exit", "0"}, rl, runner.Limit{}, "")
 		}) {
 			return vcore.Violate(prop, "hang", kind, "run did not return")
+		}
+		if aboveHard && res.Status == runner.StatusRunnerError && res.Error != "" {
+			c.Probe("limit_above_hard_refused")
+			return nil
 		}
 		if res.Status != runner.StatusNormal {
 			return vcore.Violate(prop, "launch_failed", kind, "a program under limits %v did not run normally: %s %s", rl, statusName(res.Status), res.Error)
